@@ -874,6 +874,14 @@ class HTTP1ServerConnection:
                     return
                 if not ret:
                     return
+                if self.stream.closed():
+                    # The connection was closed while this request was being
+                    # handled (e.g. it was not keep-alive). Do not go on to
+                    # serve pipelined requests that happen to be in the read
+                    # buffer already: whether they are there depends on how
+                    # the peer's bytes were segmented, and their responses
+                    # could never be sent.
+                    return
                 await asyncio.sleep(0)
         finally:
             delegate.on_close(self)
